@@ -146,6 +146,10 @@ func (x *c18World) apply(op string) bool {
 				title, cl, poster, body = strings.Repeat("T", 255), x.adL, c18LongName, strings.Repeat("m", 70)
 			case "big":
 				body = strings.Repeat("B", 65000)
+			case "tabnl": // text that starts with a tab and contains a line feed
+				title, body = "\tT\nU", "\tDear all,\nthe server moves on Friday.\n"
+			case "leadnl": // text that starts with a line feed
+				title, body = "\nT", "\nHello,\nworld"
 			}
 		}
 		var maxID uint32
@@ -441,7 +445,7 @@ func c18Exec(hist []string) (res explore.SeqResult) {
 
 func c18Alphabet() []string {
 	return []string{
-		"bundle::B2", "bundle:B1:B3", "cat::C3", "cat:B1:C2",
+		"bundle::B2", "bundle:B1:B3", "cat::C3", "cat:B1:C2", "cat::<<", "bundle:B1:<<", "post:C1:tabnl", "post:C1:leadnl", "post:<<:small",
 		"post:C1:small", "post:C1:empty", "post:C1:long", "post:C1:big", "post:B1/C2:small", "post:B1/C2:long",
 		"reply:C1:1", "reply:C1:2", "reply:B1/C2:1",
 		"delart:C1:1", "delart:C1:2", "delart:C1:3", "delart:B1/C2:1",
